@@ -39,8 +39,8 @@ META = dict(
            "bitstamp.helpers -> recorder of (key, message); HMAC-SHA256 itself is trusted",
            "the names `time` and `datetime` in the client modules -> proxies whose time()/now()/utcnow() read the scenario "
            "clock", "the request environment (clock reading x local time zone x limiter) is one solver choice from 5 combinations "
-           "(quick) / the full product of 3 clocks x {UTC0, JST-9, ART3} x {no limiter, 5 s, 0.25 s} x {PRNG reseeded, "
-           "not reseeded} (thorough)", "the clients' optional limiter (tb=) -> None or an object "
+           "(quick) / 9 combinations covering every value of 3 clocks, {UTC0, JST-9, ART3}, {no limiter, 5 s, 0.25 s}, "
+           "{PRNG reseeded, not reseeded} (thorough; the second free character is explored in the first one)", "the clients' optional limiter (tb=) -> None or an object "
            "whose consume() returns 5 s (thorough: also 0.25 s); asyncio.sleep in the client modules advances the scenario clock", "uuid.uuid4 deterministic and distinct", "the application reseeding `random` before each request is part of "
            "the environment choice",
            "wire = yarl.URL(url).update_query(params).raw_query_string and aiohttp.FormData(data)() body"],
@@ -60,8 +60,9 @@ CLOCKS = [1700000000.0004, 1700000000.4995, 1700000000.9996]
 # 4th field: the application reseeds the process-wide PRNG before each request (nonces must not repeat because of it)
 ENVS = [(0, "UTC0", None, False), (1, "UTC0", None, True), (2, "ART3", None, False), (0, "UTC0", 5.0, False),
         (1, "ART3", 5.0, True)]
-ENVS_THOROUGH = [(c, z, w, r) for c in range(3) for z in ("UTC0", "JST-9", "ART3") for w in (None, 5.0, 0.25)
-                 for r in (False, True)]
+# thorough: every zone, every limiter wait and both PRNG behaviours occur (pairwise, not the full product of 54)
+ENVS_THOROUGH = ENVS + [(2, "JST-9", None, False), (0, "JST-9", 0.25, True), (1, "UTC0", 0.25, False),
+                        (2, "ART3", 0.25, True)]
 EXTRA_DECIMALS = ["12.50", "1E-8", "3.1E+4"]      # extra keyword arguments may be decimals of any exponent
 
 
@@ -141,7 +142,8 @@ def _strings(ctx, tier):
         if idx == st["which"] or (not st["used"] and idx >= 3):
             st["used"] = True
             c = PRINTABLE[ctx.choice("character", len(PRINTABLE))]
-            if tier == "thorough":
+            if tier == "thorough" and ctx.scratch.get("c16_env_idx", 0) == 0:
+                # (the second free character is explored in the first environment only: the two dimensions are independent)
                 c2 = (SPECIALS + [""])[ctx.choice("second_character", len(SPECIALS) + 1)]
             else:
                 c2 = ""
@@ -194,8 +196,10 @@ def _clock_env(ctx, modules, tier="quick"):
     solver choice (a timestamp must not depend on it).  Returns (clock cell, limiter wait)."""
     from .c17_wire import _local_zone
     envs = ENVS_THOROUGH if tier == "thorough" else ENVS
-    ci, zone, wait, reseeds = envs[ctx.choice("environment", len(envs))]
+    env_idx = ctx.choice("environment", len(envs))
+    ci, zone, wait, reseeds = envs[env_idx]
     ctx.scratch["c16_reseeds"] = reseeds
+    ctx.scratch["c16_env_idx"] = env_idx
     clk = [CLOCKS[ci]]
     _local_zone(ctx, [zone])
     found = False
